@@ -126,6 +126,7 @@ type dgram struct {
 	from netip.AddrPort
 	data []byte
 	at   time.Duration
+	tag  string // who emitted it (world's identification; logged with the read)
 }
 
 // Socket is a simulated socket owned by the library (or by the harness acting as the library's caller).
@@ -247,6 +248,7 @@ func (s *Sim) bind(proto string, want netip.AddrPort, reuse bool) (netip.AddrPor
 		return netip.AddrPort{}, syscall.EADDRNOTAVAIL
 	}
 	port := want.Port()
+	auto := port == 0
 	conflict := func(p uint16) bool {
 		for _, f := range s.cfg.Foreign {
 			if f.Proto == proto && f.Port == p {
@@ -261,7 +263,7 @@ func (s *Sim) bind(proto string, want netip.AddrPort, reuse bool) (netip.AddrPor
 			if !overlap {
 				continue
 			}
-			if k.reuse && reuse {
+			if k.reuse && reuse && !auto {
 				continue
 			}
 			return true
@@ -270,7 +272,10 @@ func (s *Sim) bind(proto string, want netip.AddrPort, reuse bool) (netip.AddrPor
 	}
 	if port == 0 {
 		for i := 0; i < 100000; i++ {
-			p := uint16(32768 + s.aux.Intn(60999-32768+1))
+			// automatic port selection never hands out a port that is in use (Linux may, between two
+			// SO_REUSEADDR sockets - a one-in-28000 coincidence no property speaks of) and stays below the
+			// 60000-60999 block in which the scenarios place their fixed bind and listen ports
+			p := uint16(32768 + s.aux.Intn(59999-32768+1))
 			if !conflict(p) {
 				port = p
 				break
@@ -680,7 +685,7 @@ func (s *Sim) doRead(r *req, alt int) {
 		if expired {
 			s.Stats["tie:data-at-deadline"]++
 		}
-		s.logG(r.g, Ev{Kind: "read", Sock: k.ID, Src: d.from.String(), N: n, Data: d.data[:n], Note: itoa(int64(len(d.data)))})
+		s.logG(r.g, Ev{Kind: "read", Sock: k.ID, Src: d.from.String(), Dst: d.tag, N: n, Data: d.data[:n], Note: itoa(int64(len(d.data)))})
 		s.reply(r, resp{n: n, from: d.from, data: d.data[:n]})
 		return
 	}
@@ -743,7 +748,7 @@ func (s *Sim) DeliverUDP(from, dst netip.AddrPort, payload []byte, note string) 
 	if len(cands) > 1 {
 		k = cands[s.aux.Intn(len(cands))]
 	}
-	k.q = append(k.q, dgram{from: from, data: data, at: s.now})
+	k.q = append(k.q, dgram{from: from, data: data, at: s.now, tag: note})
 	s.Log(Ev{Kind: "udp-arrive", Task: k.Task, Step: k.Step, Sock: k.ID, Src: from.String(), Dst: dst.String(), N: len(data), Data: data, Note: note})
 	return k
 }
@@ -779,7 +784,7 @@ func (s *Sim) DeliverTCP(k *Socket, payload []byte, note string) {
 		s.Log(Ev{Kind: "tcp-lost", Task: k.Task, Step: k.Step, Sock: k.ID, N: len(data), Data: data, Note: note})
 		return
 	}
-	k.q = append(k.q, dgram{from: k.remote, data: data, at: s.now})
+	k.q = append(k.q, dgram{from: k.remote, data: data, at: s.now, tag: note})
 	s.Log(Ev{Kind: "tcp-arrive", Task: k.Task, Step: k.Step, Sock: k.ID, Src: k.remote.String(), N: len(data), Data: data, Note: note})
 }
 
